@@ -3,6 +3,7 @@
 From Coq Require Import Reals Lra List Arith Lia Bool Permutation Sorted.
 From PUN Require Import Base.Num Base.Sort Model.Interval Model.Pbox Model.PboxArith Model.PExpr
   Proofs.ListR Proofs.PboxWF Proofs.PboxUnary Proofs.Hull Proofs.DepOps Proofs.Lattice Proofs.Iso.
+From PUN Require Import Proofs.CtorFinite.
 Import ListNotations.
 Open Scope R_scope.
 
@@ -56,7 +57,7 @@ Proof. rewrite bsc_sel, map_length. apply sel_length. Qed.
 (* whatever the constructor accepts is well formed, for ANY input arrays of any lengths *)
 Theorem mk_total_wf b (l r : list R) p : mkg b l r = Ok p -> WFs p.
 Proof.
-  unfold mk_staircase_gen. destruct (left_right_switch RN b l r) as [l' r']. cbn [T RN].
+  rewrite mk_gen_core_R; unfold mk_staircase_core. destruct (left_right_switch RN b l r) as [l' r']. cbn [T RN].
   destruct (negb _); [discriminate|].
   destruct (is_increasing RN (bsc l')) eqn:I1; [|discriminate]. destruct (is_increasing RN (bsc r')) eqn:I2; [|discriminate].
   cbn [andb]. destruct (crosses RN (bsc l') (bsc r')) eqn:C; [discriminate|]. intros A; inversion A; subst.
@@ -65,7 +66,7 @@ Proof.
 Qed.
 Theorem mk_wf b (l r : list R) p : ple l r -> mkg b l r = Ok p -> WFs p /\ p = (bsc l, bsc r).
 Proof.
-  intros Hle E0. split; [eapply mk_total_wf; eauto|]. revert E0. unfold mk_staircase_gen.
+  intros Hle E0. split; [eapply mk_total_wf; eauto|]. revert E0. rewrite mk_gen_core_R; unfold mk_staircase_core.
   assert (E : left_right_switch RN b l r = (l, r)).
   { unfold left_right_switch. destruct b.
     - destruct (lex_ge RN l r) eqn:G; [|reflexivity]. rewrite (lex_ge_true_le l r Hle G). reflexivity.
@@ -78,7 +79,7 @@ Qed.
 (* candidate bounds in the inverted order everywhere (what an antitone map produces): the switch restores them *)
 Theorem mk_wf_rev b (l r : list R) p : ple r l -> mkg b l r = Ok p -> WFs p /\ p = (bsc r, bsc l).
 Proof.
-  intros Hle E0. split; [eapply mk_total_wf; eauto|]. revert E0. unfold mk_staircase_gen.
+  intros Hle E0. split; [eapply mk_total_wf; eauto|]. revert E0. rewrite mk_gen_core_R; unfold mk_staircase_core.
   assert (E : left_right_switch RN b l r = (r, l)).
   { unfold left_right_switch. destruct b; [rewrite (lex_ge_ple l r Hle)|rewrite (all_ge_ple l r Hle)]; reflexivity. }
   rewrite E. cbn [T RN]. destruct (negb _); [discriminate|].
@@ -88,7 +89,7 @@ Qed.
 (* ordered bounds of any length whose normalised forms are sorted are accepted *)
 Lemma mk_ordered_any b (l r : list R) : ple l r -> Rsorted (bsc l) -> Rsorted (bsc r) -> mkg b l r = Ok (bsc l, bsc r).
 Proof.
-  intros Hle Sl Sr. unfold mk_staircase_gen.
+  intros Hle Sl Sr. rewrite mk_gen_core_R; unfold mk_staircase_core.
   assert (E : left_right_switch RN b l r = (l, r)).
   { unfold left_right_switch. destruct b.
     - destruct (lex_ge RN l r) eqn:G; [|reflexivity]. rewrite (lex_ge_true_le l r Hle G). reflexivity.
@@ -102,7 +103,7 @@ Qed.
 Theorem mk_rejects_crossing b (l r : list R) : length l = steps -> length r = steps -> ~ ple l r -> ~ ple r l ->
   forall p, mkg b l r <> Ok p.
 Proof.
-  intros Hl Hr N1 N2 p E. pose proof (mk_total_wf b l r p E) as W. revert E. unfold mk_staircase_gen.
+  intros Hl Hr N1 N2 p E. pose proof (mk_total_wf b l r p E) as W. revert E. rewrite mk_gen_core_R; unfold mk_staircase_core.
   destruct (left_right_switch RN b l r) as [l' r'] eqn:S. 
   assert (H : (l' = l /\ r' = r) \/ (l' = r /\ r' = l)).
   { unfold left_right_switch in S. destruct (if b then _ else _); inversion S; auto. }
